@@ -966,6 +966,15 @@ Example C08_tt_order2_equation_differs_ex :
   Qeq (Qminus (tt_params [4; 6] (1%Q :: scaled (1 # 5)%Q (avg_dims [4; 6]) ++ [1%Q])) (Qmult (1 # 2)%Q (n2q (prod [4; 6])))) (-2 # 1)%Q /\
   Qeq (tt_residual (tt_quadratic [4; 6] (1 # 2)%Q) (1 # 5)%Q) (2 # 1)%Q.
 Proof. vm_compute. split; reflexivity. Qed.
+(* WITHIN BOUNDS: brentq returns a point of its bracket [0, max(q, 1)], i.e. 0 <= c <= 1 for a fraction q <= 1 / 'same'; then every Tucker rank
+   max(rounding_fun(c I_k), 1) lies between 1 and I_k, for every rounding mode (the harness's bisection root is in the bracket by construction) *)
+Theorem C08_validate_tucker_rank_frac_le : forall shape q rd c r, validate_tucker_rank shape (RFrac q) rd c = Ok r ->
+  (0 <= c)%Q -> (c <= 1)%Q -> Forall (fun s => 1 <= s) shape ->
+  length r = length shape /\ forall k, k < length shape -> 1 <= nth k r 0 <= nth k shape 0.
+Proof. exact validate_tucker_rank_frac_le. Qed.
+Print Assumptions C08_validate_tucker_rank_frac_le.
+Example C08_validate_tucker_rank_frac_le_ex : validate_tucker_rank [3; 4; 5] (RFrac 1) RCeil (7 # 10) = Ok [3; 3; 4].
+Proof. vm_compute. reflexivity. Qed.
 (* CP: the rank chosen for a fraction q >= 0 reproduces q * prod(shape) parameters to within one rank-one term (sum(shape) parameters): 'floor'
    never exceeds the request and one more term would, 'ceil' reaches it and one term less would not, 'round' is within half a term *)
 Theorem C08_validate_cp_rank_fraction : forall shape q rd r, (0 <= q)%Q -> validate_cp_rank shape (RFrac q) rd = Ok r ->
